@@ -479,11 +479,11 @@ def evaluate(prop, results, hangs, st, bound_check=False):
                                 or (r.model.get(t) or "").startswith(("SKIP", "NONFINITE"))
                                 or same_up_to_representation(r.reqs[t], r.impl.get(t) or "", r.model.get(t) or "") for t in refs)
                 findings.append(f)
-        if any(c.startswith(("pycmp", "pyanti", "pyseg")) for c in r.checks):
+        if any(c.startswith(("pycmp", "pyanti", "pyseg", "pyevanti")) for c in r.checks):
             bad = extra.cmp_oracle(r)
             for i, msg in bad:
                 findings.append(Finding("O", r, "check %d (%s): fail %s" % (i, r.checks[i], msg), check=i))
-            npy = len([c for c in r.checks if c.startswith(("pycmp", "pyanti", "pyseg"))])
+            npy = len([c for c in r.checks if c.startswith(("pycmp", "pyanti", "pyseg", "pyevanti"))])
             st.passed += npy - len(set(i for i, _ in bad))
             st.check_skips -= npy
         if prop == "C16" and not invalid:
@@ -557,6 +557,11 @@ def structural_pairs():
         ("g1", [sq(0, 0, 4, 4) + [[(1, 1)]]], [sq(2, 2, 6, 6)]),
         ("g1", [sq(0, 0, 4, 4) + [[(1, 1), (1, 1)]]], [sq(2, 2, 6, 6) + [[(3, 3), (5, 5), (3, 3)]]]),
         ("g1", [[[]] + [[(1, 1), (1, 3), (3, 3), (3, 1), (1, 1)]]], [sq(0, 0, 4, 4)]),
+        # zeros of both signs in one ring: an edge on the y axis written from x = +0.0 to x = -0.0 and back
+        # (equal numbers, so a valid ring; `end.x - start.x` is -0.0), crossed by the other operand
+        ("g1", [[[(-4, 0), (0, 0), (num.NZ(), 4), (-4, 4), (-4, 0)]]], [sq(-2, 1, 2, 3)]),
+        ("g1", [[[(-4, num.NZ()), (num.NZ(), 0), (0, 4), (-4, 4), (-4, num.NZ())]]], [sq(-2, 1, 2, 3)]),
+        ("g1", [sq(-2, 1, 2, 3)], [[[(0, num.NZ()), (4, 0), (4, 4), (num.NZ(), 4), (0, num.NZ())]]]),
     ]
 
 
